@@ -96,7 +96,14 @@ fn gen_predx(rng: &mut Rng, depth: u32, cols: &[J]) -> J {
             0..=4 => { let op = *rng.pick(&["gt", "ge", "lt", "le", "eq"]); let lit = json!(["val", gen_lit_for(rng, &cols[i])]); if rng.chance(1, 3) { json!([op, lit, ["col", i]]) } else { json!([op, ["col", i], lit]) } }
             5 | 6 => { let j = rng.below(cols.len() as u64) as usize; let op = *rng.pick(&["gt", "ge", "lt", "le", "eq"]); json!([op, ["col", i], ["col", j]]) }
             7 => { let n = 1 + rng.below(3); json!(["in", ["col", i], (0..n).map(|_| gen_lit_for(rng, &cols[i])).collect::<Vec<_>>()]) }
-            8 => json!(["plusgt", ["col", i], ["val", gen_lit_for(rng, &cols[i])]]),   // (col + 1) > lit : unsupported shape
+            8 if rng.chance(1, 2) => json!(["plusgt", ["col", i], ["val", gen_lit_for(rng, &cols[i])]]),   // (col + 1) > lit : unsupported shape
+            // a function of a numeric column (one-to-one or not) tested against a list or a bound: whatever the filter narrows, it may not
+            // narrow the column as if the function were not there
+            8 => { let base = if jtag(&cols[i]) == "opt" { &cols[i][1] } else { &cols[i] };
+                   if !matches!(jtag(base), "int" | "float") { json!(["boolcol", ["col", i]]) } else {
+                   let f = *rng.pick(&["neg", "neg", "abs", "exp", "double"]);
+                   if rng.chance(1, 2) { let n = 1 + rng.below(3); json!(["fnin", f, ["col", i], (0..n).map(|_| json!(["int", rng.range(-4, 6)])).collect::<Vec<_>>()]) }
+                   else { let op = *rng.pick(&["gt", "le", "eq"]); json!(["fncmp", f, op, ["col", i], ["val", ["int", rng.range(-4, 6)]]]) } } }
             _ => json!(["boolcol", ["col", i]]),
         };
     }
@@ -114,6 +121,7 @@ pub fn genx(rng: &mut Rng, k: usize, _tier: &str) -> J {
 }
 
 fn opndx(o: &J) -> Expr { if jtag(o) == "col" { Expr::col(format!("c{}", o[1].as_u64().unwrap())) } else { Expr::Value(val_of(&o[1])) } }
+fn wrapx(f: &str, e: Expr) -> Expr { match f { "neg" => Expr::opposite(e), "abs" => Expr::abs(e), "exp" => Expr::exp(e), _ => Expr::multiply(Expr::val(2), e) } }
 fn predx_expr(p: &J) -> Expr {
     match jtag(p) {
         "gt" => Expr::gt(opndx(&p[1]), opndx(&p[2])), "ge" => Expr::gt_eq(opndx(&p[1]), opndx(&p[2])),
@@ -121,6 +129,8 @@ fn predx_expr(p: &J) -> Expr {
         "eq" => Expr::eq(opndx(&p[1]), opndx(&p[2])),
         "in" => Expr::in_list(opndx(&p[1]), Expr::list(p[2].as_array().unwrap().iter().map(val_of).collect::<Vec<Value>>())),
         "plusgt" => Expr::gt(Expr::plus(opndx(&p[1]), Expr::val(1)), opndx(&p[2])),
+        "fnin" => Expr::in_list(wrapx(p[1].as_str().unwrap(), opndx(&p[2])), Expr::list(p[3].as_array().unwrap().iter().map(val_of).collect::<Vec<Value>>())),
+        "fncmp" => { let l = wrapx(p[1].as_str().unwrap(), opndx(&p[3])); let r = opndx(&p[4]); match p[2].as_str().unwrap() { "gt" => Expr::gt(l, r), "le" => Expr::lt_eq(l, r), _ => Expr::eq(l, r) } }
         "boolcol" => opndx(&p[1]),
         "and" => Expr::and(predx_expr(&p[1]), predx_expr(&p[2])), "or" => Expr::or(predx_expr(&p[1]), predx_expr(&p[2])),
         _ => Expr::not(Expr::not(predx_expr(&p[1]))),
